@@ -19,7 +19,7 @@ LEVEL = "exploration"
 TECHNIQUE = 'runtime monitoring: whole-space enumeration (5,878,656 tokenizers) compared as a multiset of parameter digests with an explicit-loop reference enumeration; name/hash uniqueness, cross-process hash tables over PYTHONHASHSEED values, save/load and identity-after-use on a covering set'
 RULE = ("the whole space is enumerated in both tiers: get_all_tokenizers() (5,878,656 objects) is compared as a multiset of 16-byte "
         "digests of each tokenizer's parameters (read back from the object's attributes) with an explicit nested-loop reference "
-        "enumeration of the documented validity rules (exactly once, nothing else, predicted size 9*216*1008*3); all names are "
+        "enumeration of the documented validity rules (exactly once, nothing else, predicted size 9*216*1008*3); in a fresh interpreter the enumeration is read, the module's sampling helper used, and the enumeration read again (same size, same list length); all names are "
         "digested and must be pairwise distinct; all_instances(cls, validation_funcs) for every element class against the loops; "
         "hash()/hash_int()/hash_b64() distinctness (an evenly spaced sample of ~400,000 in quick, all in thorough); names and hashes of sampled tokenizers recomputed in "
         "fresh processes with PYTHONHASHSEED in {0,1,777}; load(serialize()) and zanj save/read on a pairwise covering set; "
@@ -33,7 +33,7 @@ EXHAUSTIVE = {"quick": True, "thorough": True}
 NSHARDS = {"quick": 4, "thorough": 4}
 EXPECTED = 9 * 216 * 1008 * 3
 THRESHOLDS = {"quick": {"c15:enumerated": EXPECTED, "c15:reference-enumerated": EXPECTED, "c15:names-digested": EXPECTED,
-                        "c15:element-classes": 10, "c15:hash-checked": 300000, "c15:cross-process": 1500, "c15:hashseeds": 3,
+                        "c15:element-classes": 10, "c15:re-enumerated-after-helpers": 1, "c15:hash-checked": 300000, "c15:cross-process": 1500, "c15:hashseeds": 3,
                         "c15:save-load": 300, "c15:identity-after-use": 250, "c15:zanj-file": 30, "c15:legacy-checked": 40000, "c15:from_legacy": 3,
                         "c15:legacy-neighbours": 20}}
 THRESHOLDS["thorough"] = {**THRESHOLDS["quick"], "c15:hash-checked": EXPECTED, "c15:legacy-checked": EXPECTED, "c15:save-load": 2000}
@@ -73,8 +73,9 @@ def dg(x) -> bytes:
     return hashlib.blake2b(repr(x).encode(), digest_size=16).digest()
 
 
-def _fork_map(n_workers, fn, outdir, tag):
-    """run fn(w) in n_workers forked children; each writes its own files; returns list of exit statuses"""
+def _fork_map(n_workers, fn, outdir, tag, meanwhile=None):
+    """run fn(w) in n_workers forked children; each writes its own files; returns list of exit statuses.
+    `meanwhile` runs in the parent while the children work"""
     pids = []
     for w in range(n_workers):
         pid = os.fork()
@@ -89,6 +90,8 @@ def _fork_map(n_workers, fn, outdir, tag):
                 rc = 1
             os._exit(rc)
         pids.append(pid)
+    if meanwhile is not None:
+        meanwhile()
     return [os.waitpid(p, 0)[1] for p in pids]
 
 
@@ -371,9 +374,40 @@ def identity_checks(ctx):
                         ctx.check(ts.build_tokenizer(nb).is_legacy_equivalent() is False, "C15/non-legacy-tokenizer-claims-legacy-equivalence", ts.name_of(nb), dict(params=nb))
 
 
+def helpers_child_start(ctx):
+    """enumerate -> sampling helper -> enumerate again, in a fresh interpreter (no probes: the helper hashes all 5.9M tokenizers),
+    running beside the main enumeration of this shard"""
+    return subprocess.Popen([PY, "-m", "vmon.c15_helpers_child"], stdout=subprocess.PIPE, stderr=subprocess.PIPE, text=True,
+                            env=shard_env(dict(PYTHONHASHSEED="0")), cwd=VERIF_ROOT)
+
+
+def helpers_child_finish(ctx, proc):
+    try:
+        so, se = proc.communicate(timeout=1500)
+    except subprocess.TimeoutExpired:
+        proc.kill()
+        ctx.tally("c15:helpers-child-timeout(not judged)")
+        return
+    if proc.returncode != 0 or "{" not in so:
+        ctx.tally("c15:helpers-child-failed(not judged)")
+        ctx.note(f"c15 helpers child failed rc={proc.returncode}: {se[-300:]}")
+        return
+    r = json.loads(so[so.index("{"):])
+    ctx.tally("c15:re-enumerated-after-helpers")
+    ctx.ev()
+    if "sample_error" in r:
+        ctx.tally("c15:sampling-helper-failed(not judged)")
+    ctx.check(r["n_first"] == EXPECTED and r["n_again"] == r["n_first"] == r["n_first_object_now"] and r["default_in_first"] == 1 and r["default_in_again"] == 1,
+              "C15/enumeration-changes-after-using-sampling-helper",
+              f"fresh process: enumeration {r['n_first']} tokenizers (default tokenizer x{r['default_in_first']}); after sample_tokenizers_for_test: "
+              f"{r['n_again']} (default x{r['default_in_again']}; the first list object now has {r['n_first_object_now']})", r)
+
+
 def run(ctx):
     if ctx.shard == 0:
+        hp = helpers_child_start(ctx)
         enumeration(ctx)
         element_classes(ctx)
+        helpers_child_finish(ctx, hp)
     else:
         identity_checks(ctx)
